@@ -197,6 +197,8 @@ fn jiff_oracle(col: &Value, s: &str) -> Value {
         }
         _ => match jiff::SignedDuration::from_str(s) {
             Ok(d) => json!({"ns": i128s(d.as_nanos())}),
+            // jiff saturates / limits large span components: use `Span` only when every digit run is short
+            Err(_) if s.split(|c: char| !c.is_ascii_digit()).any(|run| run.len() > 6) => Value::Null,
             Err(_) => match jiff::Span::from_str(s) {
                 // calendar-free spans only (weeks/days count as 7 d / 24 h as in the crate)
                 Ok(sp) if sp.get_years() == 0 && sp.get_months() == 0 => {
@@ -581,14 +583,14 @@ fn extreme_ints(r: &mut Rng, col: &Value) -> Vec<i64> {
     match t {
         "Date32" => {
             v.extend(boundary_days());
-            v.extend([95_026_236, 95_026_237, -96_465_658, -96_465_659, 95_745_595, -95_745_595]);
+            v.extend([95_026_236, 95_026_237, -96_465_292, -96_465_293, 95_745_595, -95_745_595]);
         }
         "Date64" => {
             for d in boundary_days() {
                 v.push(d.saturating_mul(86_400_000));
                 v.push(d.saturating_mul(86_400_000).saturating_add(*r.pick(&[1, -1, 86_399_999, 43_200_000])));
             }
-            v.extend([95_026_236i64 * 86_400_000, 95_026_237i64 * 86_400_000, -96_465_658i64 * 86_400_000, -96_465_659i64 * 86_400_000, i64::MAX / 86_400_000 * 86_400_000]);
+            v.extend([95_026_236i64 * 86_400_000, 95_026_237i64 * 86_400_000, -96_465_292i64 * 86_400_000, -96_465_293i64 * 86_400_000, i64::MAX / 86_400_000 * 86_400_000]);
         }
         "Time32" | "Time64" => {
             v.extend([86_399 * per_s, 86_400 * per_s - 1, 86_400 * per_s, 86_400 * per_s + 1, 86_401 * per_s, -per_s, per_s, per_s - 1, per_s + 1, 2 * 86_400 * per_s, 1_000, 1_000_000, 1_000_000_000, 999, 1_001]);
@@ -614,7 +616,8 @@ fn extreme_ints(r: &mut Rng, col: &Value) -> Vec<i64> {
         }
     }
     for _ in 0..4 {
-        v.push(match r.below(4) {
+        v.push(match r.below(5) {
+            4 => r.range(i32::MIN as i64, i32::MAX as i64),
             0 => r.next_u64() as i64,
             1 => r.range(-1_000_000_000_000, 1_000_000_000_000),
             2 => r.range(-100_000, 100_000),
@@ -624,13 +627,47 @@ fn extreme_ints(r: &mut Rng, col: &Value) -> Vec<i64> {
     v
 }
 
+/// values a hand-made view of this column can hold (32-bit columns hold i32)
+fn view_ints(r: &mut Rng, col: &Value) -> Vec<i64> {
+    let v = extreme_ints(r, col);
+    if is32(col) {
+        v.into_iter().filter(|x| i32::try_from(*x).is_ok()).collect()
+    } else {
+        v
+    }
+}
+
+/// the value of serde kind `kind` that the bits of `v` denote (u64 above i64::MAX travels as string)
+fn fit_kind(kind: &str, v: i64) -> Value {
+    match kind {
+        "i8" => json!(v as i8),
+        "i16" => json!(v as i16),
+        "i32" => json!(v as i32),
+        "u8" => json!(v as u8),
+        "u16" => json!(v as u16),
+        "u32" => json!(v as u32),
+        "u64" => {
+            if v < 0 {
+                json!((v as u64).to_string())
+            } else {
+                json!(v)
+            }
+        }
+        _ => json!(v),
+    }
+}
+
+fn is32(col: &Value) -> bool {
+    col["t"] == "Date32" || col["t"] == "Time32"
+}
+
 fn gen_case(r: &mut Rng, col: &Value, thorough: bool) -> Vec<Value> {
     let mut steps = Vec::new();
     let k = if thorough { 10 } else { 6 };
     match r.below(10) {
         0..=4 => steps = write_strings(r, col, k),
         5 | 6 => {
-            let ints = extreme_ints(r, col);
+            let ints = view_ints(r, col);
             for _ in 0..k {
                 steps.push(json!({"r": "str", "v": *r.pick(&ints)}));
             }
@@ -640,19 +677,18 @@ fn gen_case(r: &mut Rng, col: &Value, thorough: bool) -> Vec<Value> {
             for _ in 0..k {
                 let kind = *r.pick(&["i64", "i64", "i32", "i8", "i16", "u8", "u16", "u32", "u64"]);
                 let v = *r.pick(&ints);
-                let v: Value = if kind == "u64" && r.bool() { json!((v as u64).to_string()) } else { json!(v) };
-                steps.push(json!({"w": kind, "v": v}));
+                steps.push(json!({"w": kind, "v": fit_kind(kind, v)}));
             }
         }
         8 => {
-            let ints = extreme_ints(r, col);
+            let ints = view_ints(r, col);
             for _ in 0..k {
                 steps.push(json!({"r": *r.pick(&["i64", "i32"]), "v": *r.pick(&ints)}));
             }
         }
         _ => {
             steps = write_strings(r, col, k / 2);
-            let ints = extreme_ints(r, col);
+            let ints = view_ints(r, col);
             for _ in 0..k / 2 {
                 steps.push(json!({"r": "str", "v": *r.pick(&ints)}));
             }
@@ -674,11 +710,16 @@ pub fn gen(ctx: &Ctx) -> Vec<Value> {
     for col in &cols {
         let mut r = rng.fork();
         let ints = extreme_ints(&mut r, col);
-        for chunk in ints.chunks(8) {
+        let vints = view_ints(&mut r, col);
+        for chunk in vints.chunks(8) {
             push(&r, col.clone(), chunk.iter().map(|v| json!({"r": "str", "v": v})).collect(), &mut out);
         }
         push(&r, col.clone(), ints.iter().take(11).map(|v| json!({"w": "i64", "v": v})).collect(), &mut out);
-        push(&r, col.clone(), ints.iter().take(11).map(|v| json!({"r": "i64", "v": v})).collect(), &mut out);
+        push(&r, col.clone(), vints.iter().take(11).map(|v| json!({"r": "i64", "v": v})).collect(), &mut out);
+        push(&r, col.clone(), vints.iter().take(11).map(|v| json!({"r": "i32", "v": v})).collect(), &mut out);
+        for kind in ["i8", "i16", "i32", "u8", "u16", "u32", "u64"] {
+            push(&r, col.clone(), ints.iter().take(11).map(|v| json!({"w": kind, "v": fit_kind(kind, *v)})).collect(), &mut out);
+        }
     }
     // ---- grid 2: tz settings, including unsupported ones, and width/unit pairings the builder refuses
     for tz in ["UTC", "utc", "Utc", "uTC", "+00:00", "Z", "", "UTC ", " UTC", "Europe/Berlin", "UTſ", "utç", "GMT", "U T C"] {
